@@ -53,6 +53,13 @@ def make_init(rng, init_kind, n, nc):
         A = np.repeat(A[: (n + 1) // 2], 2, axis=0)[:n]
     elif init_kind == "array-zeros":
         A[:] = 0.0
+    # memory layouts a caller's array commonly has: column-major (np.vstack([xs, ys]).T), float64, a strided view
+    elif init_kind == "array-fortran":
+        A = np.asfortranarray(A)
+    elif init_kind == "array-float64":
+        A = A.astype(np.float64)
+    elif init_kind == "array-strided":
+        A = np.repeat(A, 2, axis=1)[:, ::2]
     return A
 
 
@@ -62,10 +69,11 @@ def run(ctx):
     rng = ctx.rng
     shapes = ["regular", "n=nc+2", "n<=k", "one-feature", "duplicates", "constant-column", "all-identical", "equal-nnz-rows", "two-clusters",
               "far-pair"]
-    inits = ["spectral", "random", "pca", "tswspectral", "array", "array-constant-column", "array-duplicate-rows", "array-all-rows-twice", "array-zeros"]
+    inits = ["spectral", "random", "pca", "tswspectral", "array", "array-constant-column", "array-duplicate-rows", "array-all-rows-twice", "array-zeros",
+             "array-fortran", "array-float64", "array-strided"]
     metrics = ["euclidean", "manhattan", "cosine", "jaccard", "hellinger"]
     ctx.rule = ("a pairwise covering array over shape {regular, n=nc+2, n<=n_neighbors, one feature, duplicates, constant column, all rows "
-                "identical, CSR rows of equal nnz, two distant clusters} x init {spectral, random, pca, tswspectral, ndarray (plain, constant "
+                "identical, CSR rows of equal nnz, two distant clusters} x init {spectral, random, pca, tswspectral, ndarray (plain, column-major, float64, strided view, constant "
                 "column, duplicate rows, every row twice, all zeros)} x metric class x sparse x unique x n_components {1,2,5} x n_epochs "
                 "{0,1,11,None} x learning_rate {0,1}: fit_transform must return a float32 (n, n_components) array, finite except for "
                 "isolated samples, identical rows for identical inputs under unique=True; the rescale / n_neighbors-truncation / unique "
@@ -87,7 +95,9 @@ def run(ctx):
         must = [j for j, c in enumerate(combos) if (c[0], c[1]) in (("all-identical", "pca"), ("duplicates", "array"), ("all-identical", "spectral"),
                                                                      ("equal-nnz-rows", "spectral"), ("regular", "array-constant-column"),
                                                                      ("regular", "array-all-rows-twice"), ("n=nc+2", "spectral"), ("two-clusters", "spectral"),
-                                                                     ("far-pair", "spectral"), ("far-pair", "tswspectral"))]
+                                                                     ("far-pair", "spectral"), ("far-pair", "tswspectral"),
+                                                                     ("regular", "array-fortran"), ("two-clusters", "array-fortran"),
+                                                                     ("regular", "array-strided"), ("regular", "array-float64"))]
         combos = [combos[j] for j in sorted(set(pick.tolist()) | set(must))]
     seen = set()
     # corpus: the witness of the recorded open finding runs first (two distinct rows, unique=True)
@@ -104,6 +114,8 @@ def run(ctx):
     for (sh, ini, metric, sparse, unique, nc, ne, lr) in combos:
         if sh == "far-pair":
             nc, metric, unique = (1 if ini != "pca" else nc), "euclidean", False
+        if ini in ("array-fortran", "array-strided", "array-float64") and sh in ("regular", "two-clusters"):
+            nc, unique = max(nc, 2), False       # the layout only matters when the optimiser sees the caller's rows
         X = make_X(rng, sh, nc)
         n = X.shape[0]
         if sh in ("all-identical", "duplicates"):
